@@ -295,8 +295,14 @@ func (hr *hostsRun) history() {
 				if kind == "f6" {
 					ip = uIPs[8+ir.Intn(4)]
 				}
-				if frame, err := s.Parse(irx.load(buildFrame(kind, mac, ip))); err == nil {
-					s.Notify(frame)
+				b := irx.load(buildFrame(kind, mac, ip))
+				// this runs on the library's purge goroutine: a panic there would take the process down
+				if c.Guard(c.Prop, func() any { return map[string]any{"index": hr.idx, "history": hr.ops, "injected": fmt.Sprintf("%s mac=%x ip=%v at %s", kind, mac, ip, point)} }, func() {
+					if frame, err := s.Parse(b); err == nil {
+						s.Notify(frame)
+					}
+				}) != nil {
+					c.Restart() // Parse may have died with table locks held
 				}
 				irx.scribble()
 				c.Obs("frames_injected_between_purge_steps", 1)
